@@ -140,10 +140,16 @@ def run_tables(ctx, n):
         t, st = w["tables"], w["status"]
         inp = {"truth": tr.describe(), "zeta_step": zstep}
         if any(st.get(k, ("x",))[0] != "ok" for k in ("load", "classify", "grid")):
+            ctx.corr_break(ob, {"input": inp, "impl": {k: list(v) for k, v in st.items()},
+                                "no_longer_checks": "a planted record is loaded, classified and gridded (prerequisite of the curves)"})
             continue
         for kind, cmd in (("rising", "rise"), ("recession", "recession")):
             if st[cmd][0] != "ok":
                 ctx.count("curve_not_assembled")
+                bad = P.judged_failure(ctx, t, zstep, cmd, st[cmd])
+                if bad is not None:
+                    ctx.corr_break(ob, {"input": dict(inp, table=kind), "impl": list(st[cmd]), "model": bad,
+                                        "no_longer_checks": "`spowtd %s` fails on a dataset for which the model assembles the curve" % cmd})
                 continue
             mapping, offsets, keys = tables_mapping(kind, t)
             res = ctx.driver.call("residuals.q", {"mapping": mapping, "offsets": offsets})
